@@ -28,6 +28,23 @@ Theorem C06_announcements_intact : forall origin name seq1 rs path seenby,
 Proof. exact announce_intact. Qed.
 Print Assumptions C06_announcements_intact.
 
+(** The same for ANY configured display name: the flooder puts its first 255
+    bytes on the wire ([cut_name]: fits the one-byte length, is a prefix of
+    the configured name, and is the name itself when that fits). *)
+Theorem C06_announcements_intact_any_display_name :
+  (forall cfg, lenN (cut_name cfg) < 256 /\ (exists rest, cfg = cut_name cfg ++ rest) /\
+               (lenN cfg <= max_name_len -> cut_name cfg = cfg)) /\
+  (forall origin cfg_name seq1 rs path seenby,
+     lenN origin = 16 -> wfb idlist path = true -> wfb idlist seenby = true ->
+     forallb (wfb Route_c) rs = true ->
+     exists payloads,
+       announce origin (cut_name cfg_name) seq1 rs path seenby = map Some payloads /\
+       learned payloads = rs /\
+       Forall (fun p => lenN p <= max_payload) payloads /\
+       adv_keys payloads = keys_from origin seq1 (length payloads)).
+Proof. exact (conj cut_name_contract announce_any_name_intact). Qed.
+Print Assumptions C06_announcements_intact_any_display_name.
+
 (** One advertisement (also a forwarded or replayed one): a group that
     satisfies the splitter's bounds is encoded, decodes to exactly its routes
     and stays within the payload limit for every path and seen-by list of up
@@ -160,7 +177,10 @@ Print Assumptions C06_refuted_pre_fix_count_wrap.
     own routes, the stored one for a replayed foreign group; replay groups
     keyed by (origin, sequence, path) with one survivor per (origin, sequence);
     seen-by = path on replays; metric + 1 and unchanged origin/sequence on
-    re-flooding. *)
+    re-flooding; the wire display name is the first 255 bytes of the
+    configured one; every increment of the routing manager's sequence counter
+    (IncrementSequence in particular) happens under the write lock, so the
+    numbers handed out are distinct - what [keys_from] models. *)
 Theorem C06_source_facts :
   gen_max_routes_per_adv = max_routes_per_adv /\
   gen_max_route_bytes_per_adv = max_route_bytes_per_adv /\
@@ -177,7 +197,10 @@ Theorem C06_source_facts :
   gen_replay_one_group_per_origin_seq = true /\
   gen_replay_prefers_larger_then_shorter_path = true /\
   gen_reflood_increments_metric = true /\
-  gen_reflood_keeps_origin_sequence_appends_seen_by = true.
+  gen_reflood_keeps_origin_sequence_appends_seen_by = true /\
+  gen_display_name_cut_bytes = max_name_len /\
+  gen_increment_sequence_under_write_lock = true /\
+  gen_sequence_writers_under_write_lock = gen_sequence_writers.
 Proof.
   repeat split; try reflexivity. intros. unfold route_wire_size, gen_route_size_const, gen_route_size_per_prefix_byte.
   rewrite N.mul_1_l, N.add_comm, N.add_assoc. reflexivity.
